@@ -238,7 +238,7 @@ func c03hCheck(sc *hhScenario, obs *hhObs, r *vrt.Result, report func(kind, deta
 				// HTTP/2: MOSN reset the stream instead of answering
 				if !d.ByClient {
 					silent = true
-					report("stream reset by MOSN without a response (client did not disconnect)", fmt.Sprintf("scenario %s, request %s on connection %d: %s; log=%v", sc.Name, rq.Token, ci, f.String(), obs.Log))
+					report(fmt.Sprintf("stream reset by MOSN without a response (client did not disconnect); retried=%v deviations=%d", obs.Attempts[rq.Token] > 1, r.Cost), fmt.Sprintf("scenario %s, request %s on connection %d: %s; log=%v", sc.Name, rq.Token, ci, f.String(), obs.Log))
 				}
 				continue
 			}
@@ -288,7 +288,10 @@ func c03hCheck(sc *hhScenario, obs *hhObs, r *vrt.Result, report func(kind, deta
 			if k > 0 && sc.Proto != "Http2" && len(d.Answers[k-1]) > 0 && d.Answers[k-1][0].AtMs > start {
 				start = d.Answers[k-1][0].AtMs
 			}
-			if lim := c03hTimeBound(sc); lim > 0 && f.AtMs-start > lim {
+			// (every deviation may let one timer fire - and the virtual clock jump by up to a route timeout -
+			// while the request's own goroutine could have run: that is the scheduler starving a thread,
+			// not MOSN being late)
+			if lim := c03hTimeBound(sc) + int64(r.Cost*sc.RouteTimeoutMs); c03hTimeBound(sc) > 0 && f.AtMs-start > lim {
 				report("response later than the route timeout plus every retry cycle that could still run", fmt.Sprintf("request %s handed to MOSN at %dms, answered at %dms, bound %dms: %s", rq.Token, start, f.AtMs, lim, f.String()))
 			}
 			// nothing may be sent upstream for this request after its response went downstream
@@ -427,7 +430,7 @@ func c03hMain(part, proto string) {
 	// scenarios of the grid stay below in the quick tier); the core scenarios additionally one
 	// deviation deeper, cut by a deterministic execution cap
 	bound := vreport.Pick(1, 2)
-	capFull, capDeep := vreport.Pick(20000, 80000), vreport.Pick(5000, 30000)
+	capFull, capDeep := vreport.Pick(20000, 50000), vreport.Pick(5000, 15000)
 	var mine []hhScenario
 	for i, sc := range scs {
 		if only := os.Getenv("VERIF_C03H_ONLY"); only != "" {
